@@ -115,6 +115,16 @@ def check(ctx, rep):
     # combinators forward a cancel of their output to every input through chain_cancel (shared with C14 / C15)
     from .c14 import _chain_cancel
     _chain_cancel(ctx, rep, "R-CANCEL-FWD")
+    from . import c14 as _c14
+    from ..core import Report as _Report
+    sub14 = _Report(rep.pid, ctx)
+    _c14.check(ctx, sub14)
+    nf = 0
+    for o in sub14.obs:
+        if o.rule == "R-FANOUT" and "chain_cancel" in o.key:
+            nf += 1
+            rep.ob("R-CANCEL-FWD", o.key, o.ok, o.detail, o.where, o.trace)
+    rep.count("chain_cancel registrations of the boolean combinators", nf, 1)
 
     # ------------------------------------------------------------------ R-STOPRETRY (cancel root)
     ps, it = ctx.paths(fut.methods["cancel"], rfut, depth=6, inline=_no_cb_inline, loads=(STOP,))
